@@ -251,6 +251,45 @@ class World:
                 reg |= 1 << face
         return (reg, bad)
 
+    def boundary_probe(self, obj, reg, word=(), *, what="object", tag="C02", nmax=6):
+        """points ON the boundary of the region (mid-points of unit edges of its boundary and
+        its corners): contained with boundary=True, not contained with boundary=False"""
+        key = ("bprobe", reg)
+        if key not in self._lookups:
+            pm = self.st.passmap(reg)
+            u = self.u
+            cand = []
+            for (i, j), v in sorted(pm.items()):
+                if v == "c":
+                    cand.append((F(i), F(j)))
+                if v in "hcv":
+                    for di, dj in ((1, 0), (0, 1)):
+                        q = (i + di, j + dj)
+                        if q in pm and pm[q] != "n":
+                            # the unit edge (i,j)-(q) belongs to the boundary iff the two cells beside it differ
+                            if di:
+                                cs = [(i + 1, j), (i + 1, j + 1)]
+                            else:
+                                cs = [(i, j + 1), (i + 1, j + 1)]
+                            cs = [c for c in cs if 1 <= c[0] <= u.N and 1 <= c[1] <= u.N]
+                            if len(cs) == 2 and len({bool((reg >> u.cell_face[c]) & 1) for c in cs}) == 2:
+                                cand.append((i + F(di, 2), j + F(dj, 2)))
+            step = max(1, len(cand) // nmax)
+            self._lookups[key] = cand[::step][:nmax]
+        T = frame_affine(word) if word else None
+        fails = []
+        for g in self._lookups[key]:
+            p = self.qpoint(self.real.img(g[0], g[1], T))
+            try:
+                c, o = obj.contains_point(p, True), obj.contains_point(p, False)
+            except BaseException as ex:  # noqa
+                fails.append(Failure(tag, "boundary point query raised", where=what, exc=repr(ex), point=g))
+                break
+            if c is not True or o is not False:
+                fails.append(Failure(tag, "boundary point misclassified", where=what, reg=reg, point=g, closed=repr(c), open=repr(o)))
+                break
+        return fails
+
     def vertex_cycles(self, obj, word=()):
         """per jordan: cycle of grid points of the segment start points (None where a
         vertex is not the image of a grid point)"""
@@ -309,6 +348,7 @@ class World:
             fails.append(Failure(tg["kind"], "kind mismatch", where=what, reg=reg, expected=sorted(st.kindset(reg)), got=k))
         if not deep:
             return fails
+        fails.extend(self.boundary_probe(obj, reg, word, what=what, tag=tg.get("boundary", tg["region"])))
         if not st.pinch(reg):
             cyc = self.vertex_cycles(obj, word)
             if len(cyc) != st.nloops(reg):
